@@ -66,6 +66,7 @@ class Shadow:
         self.pidx = {p: j for j, p in enumerate(self.properties)}
         self._lattice = None
         self._too_large = None
+        self.cap_override = None      # set by drivers of big-lattice cases
 
     @classmethod
     def from_bools(cls, objects, properties, bools):
@@ -141,6 +142,7 @@ class Shadow:
         return intents
 
     def lattice(self, cap=1500):
+        cap = max(cap, self.cap_override or 0)
         if self._lattice is None:
             if self._too_large is not None and self._too_large >= cap:
                 raise CaseTooLarge(self._too_large)
@@ -150,6 +152,9 @@ class Shadow:
                 self._too_large = cap
                 raise
         return self._lattice
+
+
+BIG = 5000      # above: no O(n^2) order matrix; covers via closures of extent + one object
 
 
 class ShadowLattice:
@@ -162,6 +167,7 @@ class ShadowLattice:
         self.extents = [e for e, _ in pairs]
         self.intents = [i for _, i in pairs]
         self.n = len(pairs)
+        self.big = self.n > BIG
         self.index_of = {e: k for k, e in enumerate(self.extents)}
         self.index_of_intent = {i: k for k, i in enumerate(self.intents)}
         self._up = self._down = None
@@ -171,6 +177,8 @@ class ShadowLattice:
 
     # order ---------------------------------------------------------------
     def _order(self):
+        if self.big:
+            raise CaseTooLarge(self.n)      # callers fall back to light oracles or skip
         if self._up is None:
             n, ext = self.n, self.extents
             up = [0] * n
@@ -195,7 +203,32 @@ class ShadowLattice:
     def down(self, a):
         return self._order()[1][a]
 
+    def _covers_big(self):
+        """Upper covers of E = the minimal closures of E + one more object (a theorem of FCA);
+        lower covers are the converse.  Used instead of the order matrix for big lattices."""
+        ctx, n = self.ctx, self.n
+        upper = [[] for _ in range(n)]
+        lower = [[] for _ in range(n)]
+        for a in range(n):
+            e = self.extents[a]
+            cands = set()
+            rest = ctx.ALLO & ~e
+            for o in bits(rest):
+                cands.add(ctx.closure_o(e | 1 << o)[0])
+            for c in cands:
+                if not any(d != c and d & c == d for d in cands):      # minimal by inclusion
+                    k = self.index_of[c]
+                    upper[a].append(k)
+                    lower[k].append(a)
+            upper[a].sort()
+        lkey = [longlex_key(x) for x in self.extents]
+        for c in range(n):
+            lower[c].sort(key=lkey.__getitem__)
+        return upper, lower
+
     def _covers(self):
+        if self._upper is None and self.big:
+            self._upper, self._lower = self._covers_big()
         if self._upper is None:
             up, down = self._order()
             n = self.n
@@ -255,6 +288,8 @@ class ShadowLattice:
         if self._objc is None:
             self._objc = {}
         k = self._objc.get(i)
+        if k is None and self.big:
+            k = self._objc[i] = self.index_of[self.ctx.closure_o(1 << i)[0]]
         if k is None:
             bit = 1 << i
             cands = [c for c in range(self.n) if self.extents[c] & bit]
@@ -269,6 +304,8 @@ class ShadowLattice:
         if self._attc is None:
             self._attc = {}
         k = self._attc.get(j)
+        if k is None and self.big:
+            k = self._attc[j] = self.index_of[self.ctx.extension(1 << j)]
         if k is None:
             bit = 1 << j
             cands = [c for c in range(self.n) if self.intents[c] & bit]
